@@ -111,7 +111,7 @@ reg("C16", "other",
     "and (Inner, computed Outer), computed on the closed ring; the per-edge term of the orientation sum expands to "
     "c(x1y0 - x0y1) + telescoping with c > 0 and negative => inner; Multipatch::with_parts closes exactly the four ring kinds. "
     "Not decided: floating-point rounding of the area (the property restricts orientation to exactly representable "
-    "coordinates); macro forms are checked in the thorough tier through the witness crate.")
+    "coordinates).")
 reg("C20", "other",
     "dispatch tables (E1), slot binding of coordinates, blacklist who-may-call rule, loop-body tables for hole grouping, "
     "four-point f64 ordering domain for dim/nth (E6) — all in the geo-types,geo-traits configuration",
